@@ -260,7 +260,7 @@ def c01(case):
     a = case["args"]
     doc = a["doc"]
     doc["blocks"] = {int(k): v for k, v in doc["blocks"].items()}
-    out = {"exc": "none", "pretty_exc": "none", "tracts": [], "pretty": [], "obs_layout": "?", "n_e": 0}
+    out = {"exc": "none", "pretty_exc": "none", "tracts": [], "pretty": [], "obs_layout": "?", "n_e": 0, "plines": []}
     try:
         d = pytrs.PLSSDesc(a["text"])
         out["obs_layout"] = d.current_layout
@@ -276,6 +276,7 @@ def c01(case):
         d2 = pytrs.PLSSDesc(pretty)
         out["pretty"] = plssdoc.project_tracts(d2.tracts, doc, ws_insensitive=True)
         out["pretty_text"] = pretty[:300]
+        out["plines"] = plssdoc.lex_pretty(pretty, doc)
     except Exception as e:  # noqa
         out["pretty_exc"] = type(e).__name__
     return out
